@@ -1361,8 +1361,9 @@ def component_lists(plains):
 
 
 def entity_lists(comp_lists, max_entities):
-    """0..max entities; explicit ids distinct; the colliding id 1 never after
-    an id-less entity (that would be a duplicate id: out of the alphabet)."""
+    """0..max entities; explicit ids distinct.  The explicit id 1 may follow
+    an id-less entity: the description lists two entities, the automatic
+    identifier of the first must not be the one given to the second."""
     options = [[eid, comps] for eid in IDS for comps in comp_lists]
     out = []
     for n in range(max_entities + 1):
@@ -1370,14 +1371,7 @@ def entity_lists(comp_lists, max_entities):
             ids = [e[0] for e in combo if e[0] is not None]
             if len(set(map(jkey, ids))) != len(ids):
                 continue
-            seen_auto, bad = False, False
-            for eid, _ in combo:
-                if eid is None:
-                    seen_auto = True
-                elif eid == 1 and seen_auto:
-                    bad = True
-            if not bad:
-                out.append([list(e) for e in combo])
+            out.append([list(e) for e in combo])
     return out
 
 
